@@ -372,6 +372,21 @@ def run_case(concepts, case, spec):
         COL.count('lattice_construction_raised')
         flush_trace()
         return
+    # the caller reuses one mutable key object, editing it between consecutive look-ups
+    for items in (list(ctx.objects), list(ctx.properties)):
+        key = rng.sample(items, rng.randint(1, min(len(items), 3)))
+        for _ in range(4):
+            call(ctx.__getitem__, key)
+            call(lat.__getitem__, key)
+            if len(key) > 1 and rng.random() < .5:
+                key.pop(rng.randrange(len(key)))
+            else:
+                key.append(rng.choice(items))
+        ks = set(key)
+        call(ctx.__getitem__, ks)
+        ks.add(rng.choice(items))
+        call(ctx.__getitem__, ks)
+        COL.count('mutated_key_sequences')
     n = call(len, lat)
     for sub in keys[::2]:
         call(lat.__getitem__, tuple(sub))
